@@ -60,10 +60,12 @@ class Project(object):
                         mname = name[:-len(s)]
                         if mname == '__init__':
                             continue
-                        modules.add(mname)
+                        if mname.isidentifier():
+                            # 'data-2024.py' is a file, not something an import can name
+                            modules.add(mname)
                         break
                 else:
-                    if os.path.exists(os.path.join(pdir, name, '__init__.py')):
+                    if name.isidentifier() and os.path.exists(os.path.join(pdir, name, '__init__.py')):
                         modules.add(name)
 
         return modules
